@@ -275,3 +275,4 @@ PLAN["C13"]["units"] = PLAN["C13"]["units"] + ["hypercorn.protocol.h11:H11WSConn
 # C08 "its transport is paused": the asyncio server waits for the transport after every write
 PLAN["C08"]["units"] = PLAN["C08"]["units"] + [ATS + "protocol_send", TTS + "protocol_send"]
 PLAN["C08"]["trusted_base"] = PLAN["C08"]["trusted_base"] + LIB_IO
+PLAN["C01"]["units"] = PLAN["C01"]["units"] + [UT + "valid_server_name"]
